@@ -279,7 +279,13 @@ impl<Db: Database> StorageManager<Db> {
         }
 
         // write to the database
-        self.tic_toc(METRIC_WRITE_TIME, self.db.set(record)).await?;
+        if let Err(err) = self.tic_toc(METRIC_WRITE_TIME, self.db.set(record)).await {
+            // the database rejected the record: it must not be served from the cache
+            if let Some(cache) = &self.cache {
+                cache.flush().await;
+            }
+            return Err(err);
+        }
         self.increment_metric(METRIC_SET);
         Ok(())
     }
@@ -303,11 +309,19 @@ impl<Db: Database> StorageManager<Db> {
         }
 
         // Write to the database
-        self.tic_toc(
-            METRIC_WRITE_TIME,
-            self.db.batch_set(records, DbSetState::General),
-        )
-        .await?;
+        if let Err(err) = self
+            .tic_toc(
+                METRIC_WRITE_TIME,
+                self.db.batch_set(records, DbSetState::General),
+            )
+            .await
+        {
+            // the database rejected the records: they must not be served from the cache
+            if let Some(cache) = &self.cache {
+                cache.flush().await;
+            }
+            return Err(err);
+        }
         self.increment_metric(METRIC_BATCH_SET);
         Ok(())
     }
